@@ -462,6 +462,50 @@ func c12(repo string, out *fg.Out) error {
 	if !strings.Contains(sft, "m.hotBackend.(storage.ObjectLister)") || len(fg.CallsNamed(sf, "RecordFile")) != 1 {
 		return fmt.Errorf("ScanAndRegisterFiles: expected hotBackend lister + one RecordFile")
 	}
+	// does the scan skip objects whose path already has a tier_files row? (it does not today: every
+	// listed object is upserted, which re-registers an orphaned hot copy as hot and gets it re-migrated)
+	scanSkips := false
+	{
+		var loop *ast.RangeStmt
+		ast.Inspect(sf, func(n ast.Node) bool {
+			if r, ok := n.(*ast.RangeStmt); ok && loop == nil && len(fg.CallsNamed(r, "RecordFile")) == 1 {
+				loop = r
+			}
+			return true
+		})
+		if loop == nil {
+			return fmt.Errorf("ScanAndRegisterFiles: loop around RecordFile not found")
+		}
+		recPos := fg.CallsNamed(loop, "RecordFile")[0].Pos()
+		for _, st := range loop.Body.List {
+			if st.Pos() > recPos {
+				break
+			}
+			is, ok := st.(*ast.IfStmt)
+			if !ok {
+				continue
+			}
+			txt := man.Text(is)
+			if !strings.Contains(txt, "m.metadata.") {
+				continue
+			}
+			if len(fg.CallsNamed(is, "RecordFile")) == 1 {
+				continue // the registration itself
+			}
+			hasContinue := false
+			ast.Inspect(is.Body, func(n ast.Node) bool {
+				if b, ok := n.(*ast.BranchStmt); ok && b.Tok == token.CONTINUE {
+					hasContinue = true
+				}
+				return true
+			})
+			if hasContinue && len(fg.CallsNamed(is, "GetFile")) == 1 && strings.Contains(txt, "existing != nil") {
+				scanSkips = true
+			} else {
+				return fmt.Errorf("ScanAndRegisterFiles line %d: unmodelled metadata-dependent branch before RecordFile", man.Line(is))
+			}
+		}
+	}
 	scanTier := ""
 	ast.Inspect(sf, func(n ast.Node) bool {
 		kv, ok := n.(*ast.KeyValueExpr)
@@ -566,7 +610,7 @@ func c12(repo string, out *fg.Out) error {
 	fmt.Fprintf(L, "/-- ReconcileOrphanedFiles: metadata tier it enumerates, tier it probes with Exists, tier it deletes from -/\n")
 	fmt.Fprintf(L, "def recGuard : Tier := .%s\ndef recProbe : Tier := .%s\ndef recDelete : Tier := .%s\n", recGuard, recProbe, recDel)
 	fmt.Fprintf(L, "def reconcileWindowHours : Nat := %d\n\n", windowNs/3600000000000)
-	fmt.Fprintf(L, "/-- ScanAndRegisterFiles upserts every object listed in the hot backend with this tier -/\ndef scanTier : Tier := .%s\n\n", scanTier)
+	fmt.Fprintf(L, "/-- ScanAndRegisterFiles upserts every object listed in the hot backend with this tier -/\ndef scanTier : Tier := .%s\n/-- … unless the path already has a tier_files row -/\ndef scanSkipsRegistered : Bool := %v\n\n", scanTier, scanSkips)
 	var names []string
 	for _, p := range phs {
 		names = append(names, "."+p.name)
@@ -592,6 +636,7 @@ func c12(repo string, out *fg.Out) error {
 		return r
 	}()
 	out.JSON["scan_tier"] = scanTier
+	out.JSON["scan_skips_registered"] = scanSkips
 	out.JSON["copy_src_err_propagates"] = true
 	return nil
 }
